@@ -72,7 +72,8 @@ def run_target(ctx, name, lines, classes, par=6, timeout=420):
     warm = os.path.join(d, "warm.txt")
     open(warm, "w").write("G find 1 4 1 1\n")
     base = ["cargo", "+nightly", "miri", "run", "--offline", "--quiet", "--target", TARGETS[name], "--", "miri-sample", "--seed", str(ctx.seed)]
-    p = subprocess.run(["timeout", str(timeout)] + base + ["--in", warm], cwd=C.HARNESS, env=env, stdout=subprocess.PIPE, stderr=subprocess.PIPE, text=True)
+    with C.build_lock():
+        p = subprocess.run(["timeout", str(timeout)] + base + ["--in", warm], cwd=C.HARNESS, env=env, stdout=subprocess.PIPE, stderr=subprocess.PIPE, text=True)
     if p.returncode != 0 or "MIRI-SAMPLE" not in p.stdout:
         raise ToolError("miri build/run for %s failed (rc=%s): %s" % (name, p.returncode, (p.stderr or p.stdout)[-300:]))
     chunks = [lines[i::par] for i in range(par)]
